@@ -190,6 +190,17 @@ def step (sess : Session) (line : String) : Session × String :=
      | some text => (sess, encLsp (lspAnalyze sess.fuel text))
      | none => (sess, "bad-utf8"))
   | ["lsp"] => (sess, encLsp (lspAnalyze sess.fuel []))
+  -- several documents side by side: the server keeps them apart, so the answer for document k depends on its own text only
+  | ["lspu", _, h] =>
+    (match unhex h with
+     | some text => (sess, encLsp (lspAnalyze sess.fuel text))
+     | none => (sess, "bad-utf8"))
+  | ["lspu", _] => (sess, encLsp (lspAnalyze sess.fuel []))
+  | "lspq" :: _ :: rest =>
+    let a := lspAnalyze (F := Float) sess.fuel (argText rest)
+    (sess, match semanticTokens a with
+      | none => "PANIC"
+      | some ts => "S " ++ " ".intercalate (ts.map fun (x : SemTok) => s!"{x.deltaLine},{x.deltaStart},{x.length},{x.tokenType}"))
   | ["load", h] =>
     -- SourceFileAnalyzer::analyze(text).into_interpreter(): replaces the interpreter
     (match unhex h with
